@@ -203,16 +203,25 @@ def replay(prop, path):
     return 0
 
 
-def sample_lines(trace, k=2):
-    out = []
+def sample_lines(trace, k=2, kinds=None):
+    """a few recorded real steps, preferably of the message kinds the property is about"""
+    out, fallback = [], []
     with open(trace) as f:
-        for i, ln in enumerate(f):
+        for ln in f:
             e = json.loads(ln)
-            if e["call"]["m"] not in ("instantiate", "faucet", "time") and e["res"]["ok"]:
-                out.append({"call": json.loads(e["callj"]) if "callj" in e else e["call"], "ok": e["res"]["ok"], "msgs": e["res"].get("msgs", [])[:4]})
-                if len(out) >= k:
-                    break
-    return out
+            call = json.loads(e["callj"]) if "callj" in e else e["call"]
+            m = call.get("inner", call["m"])
+            if m in ("instantiate", "faucet", "time"):
+                continue
+            rec = {"call": call, "ok": e["res"]["ok"], "err": e["res"].get("err", "")[:80], "msgs": e["res"].get("msgs", [])[:4]}
+            if kinds and m in kinds:
+                if not any(o["call"].get("inner", o["call"]["m"]) == m and o["ok"] == rec["ok"] for o in out):
+                    out.append(rec)
+            elif e["res"]["ok"] and len(fallback) < k:
+                fallback.append(rec)
+            if len(out) >= k + 1:
+                break
+    return out or fallback
 
 
 # ---------------------------------------------------------------------------------------------
@@ -823,7 +832,12 @@ def run_property(prop, tier, seed):
             log("finding:", json.dumps(g))
         print(f"VIOLATION property={prop} replay={first_replay}")
         rc = 1
-    samples = sample_lines(traces[-1][0], 2) if traces else []
+    kinds = {k for (k, _) in REQUIRED.get(prop, [])}
+    samples = []
+    for path, _tag in traces:
+        samples = sample_lines(path, 2, kinds)
+        if samples:
+            break
     for st in replays[:1]:
         samples.append({"tlc_generated_test_stats": {k: st[k] for k in ("model", "edges", "executed", "ok", "refused", "mismatches", "max_depth")}})
     ev = {
